@@ -33,18 +33,18 @@ type Frame struct {
 }
 
 type File struct {
-	Chunks           []Chunk
-	First            string // "VP8 ", "VP8L", "VP8X"
-	HasVP8X          bool
-	Flags            byte
-	CanvasW, CanvasH int
-	Animated         bool
-	Loop             int
-	BG               uint32
-	Frames           []Frame
-	ICC, EXIF, XMP   []byte
+	Chunks                  []Chunk
+	First                   string // "VP8 ", "VP8L", "VP8X"
+	HasVP8X                 bool
+	Flags                   byte
+	CanvasW, CanvasH        int
+	Animated                bool
+	Loop                    int
+	BG                      uint32
+	Frames                  []Frame
+	ICC, EXIF, XMP          []byte
 	HasICC, HasEXIF, HasXMP bool
-	Order            []string
+	Order                   []string
 }
 
 const (
